@@ -513,6 +513,12 @@ theorem query_swap (c12 c21 : Iso3 K → Option (Contact3 K)) (k12 k21 : Iso3 K 
   · cases c12 (@Iso3.invMul K (fieldNum K sq) p1 p2) <;> rfl
   · cases k12 (@Iso3.invMul K (fieldNum K sq) p1 p2) <;> rfl
 
+/-- the hypotheses of `query_swap` are met by the half-space wrappers (`halfspace_swap`) -/
+example (n : V3 K) (S : SupportMap3 K) (pred : K) :
+    letI := fieldNum K sq
+    ∀ m, Unit3 m → (fun m => contactSH m S n pred) (Iso3.inverse m) = ((fun m => contactHS m n S pred) m).map Contact3.flipped :=
+  fun m hm => (halfspace_swap sq m n S pred hm).1.2.2.2
+
 /-- **Swapped `cast_shapes`**: with the arguments exchanged the dispatcher receives `pos21 = pos12⁻¹` and
 `vel21 = -(pos12⁻¹ · vel12)` — exactly what the mirrored cast wrappers construct from `(pos12, vel12)`. -/
 theorem queryCastShapes_swap {α : Type} (d : Iso3 K → V3 K → α) (p1 p2 : Iso3 K) (v1 v2 : V3 K)
@@ -539,5 +545,120 @@ theorem contactSH_pinned_not_mirrored :
     ((contactHS pos12.inverse n S 5).map Contact3.flipped).map (·.dist) = some 2 ∧
     (contactSH pos12 S n 5).map (·.dist) = some 2 := by
   decide +kernel
+
+/-! ## Part 5 — 2-D (unit complex numbers) -/
+
+/-- 2-D: `inv_mul` is `inverse` then `mul`; `inverse_transform_point` is the action of the inverse. -/
+theorem iso2_invMul_eq_inverse_mul (a b : Iso2 K) (p : V2 K) :
+    letI := fieldNum K sq
+    a.invMul b = a.inverse.mul b ∧ a.invAct p = a.inverse.act p := by
+  simp only [Iso2.invMul, Iso2.inverse, Iso2.mul, Iso2.rot, Iso2.invAct, Iso2.invRot, Iso2.act, V2.add, V2.sub, V2.neg,
+    V2.zero, Iso2.mk.injEq, V2.mk.injEq]
+  refine ⟨⟨trivial, trivial, ?_, ?_⟩, ?_, ?_⟩ <;> ring
+
+/-- 2-D: `inverse` is a two-sided inverse for the action; `inverse_transform_point` undoes `transform_point`. -/
+theorem iso2_inverse_act (m : Iso2 K) (p : V2 K) (h : Unit2 m) :
+    letI := fieldNum K sq
+    m.inverse.act (m.act p) = p ∧ m.act (m.inverse.act p) = p ∧ m.invAct (m.act p) = p ∧ m.act (m.invAct p) = p := by
+  obtain ⟨re, im, tx, ty⟩ := m; obtain ⟨x, y⟩ := p
+  simp only [Unit2, Iso2.inverse, Iso2.rot, Iso2.invAct, Iso2.invRot, Iso2.act, V2.add, V2.sub, V2.neg,
+    V2.mk.injEq] at h ⊢
+  refine ⟨⟨?_, ?_⟩, ⟨?_, ?_⟩, ⟨?_, ?_⟩, ⟨?_, ?_⟩⟩
+  · linear_combination x * h
+  · linear_combination y * h
+  · linear_combination (x - tx) * h
+  · linear_combination (y - ty) * h
+  · linear_combination x * h
+  · linear_combination y * h
+  · linear_combination (x - tx) * h
+  · linear_combination (y - ty) * h
+
+/-- 2-D: the product acts as the composition (no unit hypothesis needed: complex multiplication). -/
+theorem iso2_mul_act (a b : Iso2 K) (p : V2 K) :
+    letI := fieldNum K sq
+    (a.mul b).act p = a.act (b.act p) ∧ (a.mul b).rot p = a.rot (b.rot p) := by
+  simp only [Iso2.mul, Iso2.act, Iso2.rot, V2.add, V2.mk.injEq]
+  refine ⟨⟨?_, ?_⟩, ?_, ?_⟩ <;> ring
+
+/-- 2-D: a unit complex preserves dot products. -/
+theorem iso2_rot_dot (m : Iso2 K) (u v : V2 K) (h : Unit2 m) :
+    letI := fieldNum K sq
+    (m.rot u).dot (m.rot v) = u.dot v ∧ (m.invRot u).dot (m.invRot v) = u.dot v := by
+  obtain ⟨re, im, tx, ty⟩ := m; obtain ⟨x, y⟩ := u; obtain ⟨x', y'⟩ := v
+  simp only [Unit2, Iso2.rot, Iso2.invRot, V2.dot] at h ⊢
+  constructor
+  · linear_combination (x * x' + y * y') * h
+  · linear_combination (x * x' + y * y') * h
+
+/-- 2-D: `inverse` is an involution on unit isometries, and products / inverses of unit isometries are unit. -/
+theorem iso2_inverse_inverse (m n : Iso2 K) (h : Unit2 m) (hn : Unit2 n) :
+    letI := fieldNum K sq
+    m.inverse.inverse = m ∧ Unit2 m.inverse ∧ Unit2 (m.mul n) ∧ Unit2 (m.invMul n) := by
+  obtain ⟨re, im, tx, ty⟩ := m; obtain ⟨re', im', tx', ty'⟩ := n
+  simp only [Unit2, Iso2.inverse, Iso2.mul, Iso2.invMul, Iso2.rot, V2.neg, Iso2.mk.injEq, V2.mk.injEq, neg_neg] at h hn ⊢
+  refine ⟨⟨trivial, trivial, ?_, ?_⟩, ?_, ?_, ?_⟩
+  · linear_combination tx * h
+  · linear_combination ty * h
+  · linear_combination h
+  · linear_combination (re' * re' + im' * im') * h + hn
+  · linear_combination (re' * re' + im' * im') * h + hn
+
+/-- **2-D frame independence of `pos12`**: `(g·p1)⁻¹(g·p2) = p1⁻¹p2` for a unit `g`. -/
+theorem iso2_invMul_frame (g p1 p2 : Iso2 K) (hg : Unit2 g) :
+    letI := fieldNum K sq
+    (g.mul p1).invMul (g.mul p2) = p1.invMul p2 := by
+  obtain ⟨c, s, gx, gy⟩ := g; obtain ⟨a, b, ax, ay⟩ := p1; obtain ⟨a', b', bx, by'⟩ := p2
+  simp only [Unit2, Iso2.mul, Iso2.invMul, Iso2.rot, V2.add, V2.sub, V2.zero, Iso2.mk.injEq, V2.mk.injEq] at hg ⊢
+  refine ⟨?_, ?_, ?_, ?_⟩
+  · linear_combination (a * a' + b * b') * hg
+  · linear_combination (a * b' - b * a') * hg
+  · linear_combination (a * (bx - ax) + b * (by' - ay)) * hg
+  · linear_combination (-b * (bx - ax) + a * (by' - ay)) * hg
+
+/-- **2-D: swapping the poses inverts `pos12`.** -/
+theorem iso2_invMul_swap (a b : Iso2 K) (ha : Unit2 a) :
+    letI := fieldNum K sq
+    b.invMul a = (a.invMul b).inverse := by
+  obtain ⟨c, s, ax, ay⟩ := a; obtain ⟨c', s', bx, by'⟩ := b
+  simp only [Unit2, Iso2.invMul, Iso2.inverse, Iso2.rot, V2.sub, V2.neg, V2.zero, Iso2.mk.injEq, V2.mk.injEq] at ha ⊢
+  refine ⟨?_, ?_, ?_, ?_⟩
+  · ring
+  · ring
+  · linear_combination (-(c' * (ax - bx) + s' * (ay - by'))) * ha
+  · linear_combination (-(-s' * (ax - bx) + c' * (ay - by'))) * ha
+
+/-- **2-D half-space contact wrappers are mirrored** (corrected `contact_support_map_halfspace`). -/
+theorem halfspace_contact_swap2 (pos12 : Iso2 K) (n : V2 K) (S : SupportMap2 K) (pred : K) (h : Unit2 pos12) :
+    letI := fieldNum K sq
+    contactSH2 pos12.inverse S n pred = (contactHS2 pos12 n S pred).map Contact2.flipped ∧
+    contactHS2 pos12.inverse n S pred = (contactSH2 pos12 S n pred).map Contact2.flipped := by
+  constructor
+  · simp only [contactSH2, (iso2_inverse_inverse sq pos12 pos12 h h).1]
+  · simp only [contactSH2, Option.map_map]
+    cases @contactHS2 K (fieldNum K sq) (@Iso2.inverse K (fieldNum K sq) pos12) n S pred <;> rfl
+
+/-- **2-D free functions**: frame independence (`query::contact`: points moved by `g`, normals rotated by `g`;
+scalar queries unchanged) and swap symmetry given mirrored dispatcher-level functions. -/
+theorem query2_frame_and_swap (d12 d21 : Iso2 K → Option (Contact2 K)) {α : Type} (s12 s21 : Iso2 K → α)
+    (g p1 p2 : Iso2 K) (hg : Unit2 g) (h1 : Unit2 p1) (h2 : Unit2 p2)
+    (hc : letI := fieldNum K sq; ∀ m, Unit2 m → d21 m.inverse = (d12 m).map Contact2.flipped)
+    (hs : letI := fieldNum K sq; ∀ m, Unit2 m → s21 m.inverse = s12 m) :
+    letI := fieldNum K sq
+    queryContact2 d12 (g.mul p1) (g.mul p2) = (queryContact2 d12 p1 p2).map (fun c => c.transformBy g g) ∧
+    queryScalar2 s12 (g.mul p1) (g.mul p2) = queryScalar2 s12 p1 p2 ∧
+    queryContact2 d21 p2 p1 = (queryContact2 d12 p1 p2).map Contact2.flipped ∧
+    queryScalar2 s21 p2 p1 = queryScalar2 s12 p1 p2 := by
+  have hu := (iso2_inverse_inverse sq p1 p2 h1 h2).2.2.2
+  simp only [queryContact2, queryScalar2, iso2_invMul_frame sq g p1 p2 hg, iso2_invMul_swap sq p1 p2 h1, hc _ hu, hs _ hu,
+    true_and, and_true]
+  constructor
+  · cases d12 (@Iso2.invMul K (fieldNum K sq) p1 p2) with
+    | none => rfl
+    | some c =>
+      simp only [Option.map_some, Contact2.transformBy, (iso2_mul_act sq g p1 _).1, (iso2_mul_act sq g p2 _).1,
+        (iso2_mul_act sq g p1 _).2, (iso2_mul_act sq g p2 _).2]
+  · cases d12 (@Iso2.invMul K (fieldNum K sq) p1 p2) <;> rfl
+
+example : Unit2 (⟨3/5, 4/5, ⟨1, -2⟩⟩ : Iso2 ℚ) := by unfold Unit2; norm_num
 
 end C03
